@@ -36,6 +36,8 @@ class CompMixin(Interp):
         v = self.force(st, v)
         if isinstance(v, VTuple):
             return Source(items=list(v.items))
+        if type(v).__name__ == "VRec":
+            return Source(items=list(v.items))      # a NamedTuple iterates over its fields in declaration order
         if isinstance(v, VStr):
             ok, s = pyconst(v)
             if ok:
